@@ -58,6 +58,17 @@ add("C14", "exploration",
     "Exploration only; tolerance range starts at 10x the a-priori evaluation noise floor; n_max fixed to 200.",
     "DESIGN.md 4/C14")
 
+add("C09", "exploration",
+    "property-based testing (proptest) with closed-form integrals; admission by a reliability certificate (harness-side simulation of the documented stopping rule on independently computed nodes); instrumented integrand (call counter) and differential work bound against a textbook adaptive Simpson",
+    "Generated integrands with closed-form (weighted) integrals; a case is judged only when the harness's own simulation of the stopping heuristic decides every step with a 1.5x margin and is itself within tol/2 of the truth, then Ok within K tol is required (K=2; Simpson K=1 on degree<=5 polynomials; Romberg exact to rounding); Simpson's evaluation count is compared with a textbook implementation per case and per batch; invalid inputs must give Err for all eight routines.",
+    "Exploration only. About 6% of generated cases are not admitted by the certificate (counted as discards). No accuracy claim for adaptive Simpson on non-polynomial integrands (the property claims only work there).",
+    "DESIGN.md 4/C09")
+add("C10", "exploration",
+    "exhaustive enumeration of every table row and entry (251 Gaussian rules, 192 tanh-sinh pairs): structure, exactness on all monomials of degree <= 2n-1 against exact moments, node/weight comparison with independently computed Gauss rules (Golub-Welsch, closed forms), double-exponential formula; proptest-generated random polynomials in orthonormal bases",
+    "Every row of the five Gaussian tables of the working tree is expanded as the integrators consume it and checked for n distinct interior nodes, positive weights, exactness on every monomial up to degree 2n-1 (1e-9 relative to sum w|p|) and agreement with an independent rule to 1e-10; every tanh-sinh pair against the formula (1e-12). The finite space is covered completely.",
+    "Table perturbations below ~1e-10 relative are below the resolution (stated limit). Trusts nalgebra's symmetric eigen-solver for the independent rules.",
+    "DESIGN.md 4/C10")
+
 ALL = ["C%02d" % i for i in range(1, 21)]
 
 def main():
